@@ -136,6 +136,47 @@ func c08Accounts(p *load.Prog, r *oblig.Run) {
 	}
 	loop := loops[0]
 	r.Add("R08.c", "children loop", p.Pos(kids.Pos()), "traverse walks n.Nodes() from the first to the last child").OK("index runs over 0..len-1")
+	// every path of traverse that returns reaches the children loop, except the exit for a nil node
+	isNilFn := p.Func(load.PkgRoot, "IsNil")
+	tpaths, tcapped := simplePaths(tr.Blocks[0], map[*ssa.BasicBlock]bool{loop.header: true}, 400)
+	if tcapped {
+		r.Add("R08.c", "traverse paths", p.Pos(tr.Pos()), "paths").Unknown("more than 400 paths before the children loop")
+		return
+	}
+	tn := 0
+	for _, path := range tpaths {
+		last := path[len(path)-1]
+		if last == loop.header || !pathConstFeasible(path) {
+			continue
+		}
+		ret, ok := last.Instrs[len(last.Instrs)-1].(*ssa.Return)
+		if !ok {
+			continue
+		}
+		// the nil exit: the path took the true side of IsNil(n) (or n == nil)
+		nilExit := false
+		for i := 0; i+1 < len(path); i++ {
+			iff, ok := path[i].Instrs[len(path[i].Instrs)-1].(*ssa.If)
+			if !ok || path[i+1] != path[i].Succs[0] {
+				continue
+			}
+			switch c := iff.Cond.(type) {
+			case *ssa.Call:
+				if isNilFn != nil && c.Call.StaticCallee() == isNilFn && len(c.Call.Args) == 1 && su.Strip(c.Call.Args[0]) == ssa.Value(node) {
+					nilExit = true
+				}
+			case *ssa.BinOp:
+				if k, isK := c.Y.(*ssa.Const); isK && k.Value == nil && c.Op == token.EQL && c.X == ssa.Value(node) {
+					nilExit = true
+				}
+			}
+		}
+		if nilExit {
+			continue
+		}
+		tn++
+		r.Add("R08.c", fmt.Sprintf("traverse early return %d", tn), p.Pos(ret.Pos()), "return before the children loop").Fail("NodeDiff.traverse returns on the path " + pathDesc(p, path) + " for a node that is not nil without walking its children: the entries below are never marked for this side (or never made)")
+	}
 	bpaths, capped := simplePaths(loop.body, map[*ssa.BasicBlock]bool{loop.header: true}, 2000)
 	if capped {
 		r.Add("R08.c", "iteration paths", p.Pos(tr.Pos()), "paths").Unknown("more than 2000 paths through the loop body")
@@ -157,7 +198,7 @@ func c08Accounts(p *load.Prog, r *oblig.Run) {
 			continue
 		}
 		k++
-		visits, fresh, appended := 0, false, false
+		visits, fresh, appended, intoParent := 0, false, false, false
 		for _, b := range path[:len(path)-1] {
 			for _, ins := range b.Instrs {
 				switch x := ins.(type) {
@@ -166,6 +207,9 @@ func c08Accounts(p *load.Prog, r *oblig.Run) {
 						visits++
 						if _, isNew := x.Call.Args[0].(*ssa.Alloc); isNew {
 							fresh = true
+						}
+						if x.Call.Args[0] == ssa.Value(tr.Params[0]) {
+							intoParent = true
 						}
 					}
 				case *ssa.Store:
@@ -181,6 +225,8 @@ func c08Accounts(p *load.Prog, r *oblig.Run) {
 			o.Fail("a child can pass through NodeDiff.traverse on the path " + pathDesc(p, path) + " without being walked into any entry (with its own side): the child and its subtree are not represented in the diff")
 		case visits > 1:
 			o.Fail("a child is walked into more than one entry on the path " + pathDesc(p, path) + ": it is represented twice")
+		case intoParent:
+			o.Fail("on the path " + pathDesc(p, path) + " the child is walked into the entry of its parent instead of an entry of its own: its children appear one level too high in the diff")
 		case fresh && !appended:
 			o.Fail("on the path " + pathDesc(p, path) + " a new entry is made for the child but never added to the entry's children")
 		default:
